@@ -474,4 +474,6 @@ MUTANTS = [
          find="id=id if id is not None else match.response_data['id'],", replace="id=id or match.response_data['id'],", expect='REPLY-ID'),
     dict(name='reply-with-configured-id-first', file='pjrpc/client/integrations/pytest.py',
          find="id=id if id is not None else match.response_data['id'],", replace="id=match.response_data['id'],", expect='REPLY-ID'),
+    dict(name='lookup-auto-vivifies', file='pjrpc/client/integrations/pytest.py', find='matches = self._matches[endpoint].get((version, method_name))\n        if matches is None:',
+         replace='matches = self._matches[endpoint][(version, method_name)]\n        if not matches:', expect='FALLBACKS'),
 ]
